@@ -14,9 +14,16 @@
                                     alternation matches a token it is emitted and the scan continues behind it.
   * `c13_comment_block_is_newlines`, `c13_comment_line_is_nothing` — composing with the comment scanner (Proofs/C13.lean):
                                     a block comment at a point where the comment scanner is between lexical items parses
-                                    like the newlines it contains, a line comment like nothing (its newline stays);
-                                    `c13_comment_is_blank`: so a comment at a separator position does not change the
-                                    declarations.
+                                    like what the scanner puts in its place (`commentRepl`: its newlines; ONE BLANK when it has
+                                    none and stands directly between two characters that are no white space; else nothing), a
+                                    line comment like nothing (its newline stays).  Since the replacement depends on the two
+                                    neighbours, these statements now have side conditions (the text in front does not end
+                                    with `/`, the text behind does not start with a block comment: adjacent comments influence
+                                    each other's replacement);
+    `c13_comment_separates`         — the "ignores comments" clause by the scanner rule itself: a block comment without line break
+                                    directly between two characters that are neither white space nor `/` is the same as one
+                                    blank — for the stripped text and for the declarations (`uint8/**/a` = `uint8 a`);
+    `c13_comment_is_blank`          — with the blank-insensitivity theorems: a comment may stand anywhere a blank may stand.
   * `c13_decls_layout_independent` — the handlers read a token only through `Tok.obs` (its kind, and what its own pattern /
                                     `strip` make of its text): token lists with the same observations give the same
                                     declaration list and the same error;
@@ -126,64 +133,140 @@ theorem c13_dimension_blanks (pre w a t b : List Char) (bits : Option (List Char
   rw [parseDeclarator_lexeme pre w bits _ h, parseDeclarator_lexeme pre w bits _ h']
   simp only [dims_pad a t b ha hb ht]
 
-theorem closed_newlines : ∀ (l : List Char), (∀ c ∈ l, c = '\n') → Closed l l
-  | [], _ => .nil
-  | c :: l, h => by
-    have hc : c = '\n' := h c (by simp)
-    subst hc
-    exact .char '\n' l l (by decide) (by decide) (by decide) (closed_newlines l (fun d hd => h d (by simp [hd])))
+/-- a text without quotes and slashes: the comment scanner copies it, whatever stands around it -/
+theorem closed_plain : ∀ (p n : Option Char) (l : List Char), (∀ c ∈ l, c ≠ '"' ∧ c ≠ '\'' ∧ c ≠ '/') → Closed p l n l
+  | p, n, [], _ => .nil p n
+  | p, n, c :: l, hc => .char p n c l l (hc c (by simp)).1 (hc c (by simp)).2.1 (hc c (by simp)).2.2
+      (closed_plain (some c) n l (fun d hd => hc d (by simp [hd])))
 
-theorem c13_comment_block_is_newlines (a o body b : List Char) (h : Closed a o) (hb : hasClose body = false) :
-    parseDecls (a ++ ('/' :: '*' :: body ++ '*' :: '/' :: b)) = parseDecls (a ++ (newlinesOf body ++ b)) := by
-  have hn : Closed (newlinesOf body) (newlinesOf body) :=
-    closed_newlines _ (fun c hc => by simpa [newlinesOf] using (List.mem_filter.mp hc).2)
-  rw [parseDecls_eq, parseDecls_eq, Parser.C13.c13_comment_block a o body b h hb, Parser.C13.c13_strip_append a o _ h,
-    Parser.C13.c13_strip_append _ _ b hn, List.append_assoc]
+/-- the text in front of a comment is scanned alike whatever follows it, unless it ends with `/` (in particular: with a comment,
+    whose own replacement depends on what follows) -/
+theorem closed_next (p : Option Char) (a : List Char) (n n' : Option Char) (o : List Char) (h : Closed p a n o)
+    (hl : lastOr p a ≠ some '/') : Closed p a n' o := by
+  induction h with
+  | nil p n => exact .nil p n'
+  | char p n c a o h1 h2 h3 _ ih => exact .char p n' c a o h1 h2 h3 (ih hl)
+  | quoted p n q body a o hq hb _ ih =>
+    refine .quoted p n' q body a o hq hb (ih ?_)
+    have el : lastOr p (q :: body ++ q :: a) = lastOr (some q) a := by
+      rw [show q :: body ++ q :: a = (q :: body ++ [q]) ++ a by simp, lastOr_append]
+      congr 1
+      rw [show q :: body ++ [q] = (q :: body) ++ [q] by simp, lastOr_append]; rfl
+    rwa [el] at hl
+  | block p n body a o hb _ ih =>
+    have el : lastOr p ('/' :: '*' :: body ++ '*' :: '/' :: a) = lastOr (some '/') a := by
+      rw [show '/' :: '*' :: body ++ '*' :: '/' :: a = ('/' :: '*' :: body ++ ['*']) ++ ('/' :: a) by simp, lastOr_append]
+      rfl
+    rw [el] at hl
+    have hne : a ≠ [] := by intro e; subst e; exact hl rfl
+    have hh : headOr a n = headOr a n' := by cases a with
+      | nil => exact absurd rfl hne
+      | cons c a => rfl
+    rw [hh]
+    exact .block p n' body a o hb (ih hl)
+  | line p n body a o hb _ ih =>
+    have el : lastOr p ('/' :: '/' :: body ++ '\n' :: a) = lastOr (some '/') ('\n' :: a) := by
+      rw [show '/' :: '/' :: body ++ '\n' :: a = ('/' :: '/' :: body) ++ ('\n' :: a) by simp, lastOr_append]
+      rfl
+    exact .line p n' body a o hb (ih (by rwa [el] at hl))
+  | slash p n c a o h1 h2 _ ih => exact .slash p n' c a o h1 h2 (ih hl)
 
-theorem c13_comment_line_is_nothing (a o body b : List Char) (h : Closed a o) (hb : ∀ c ∈ body, isEol c = false) :
+theorem strip_closed (p : Option Char) (a o : List Char) (h : Closed p a none o) : stripFrom p a = o := by
+  have := Parser.C13.c13_strip_append p a o [] (by simpa using h)
+  simpa [Parser.stripFrom, Parser.stripAux] using this
+
+theorem commentRepl_plain (p n : Option Char) (body : List Char) : ∀ c ∈ commentRepl p body n, c ≠ '"' ∧ c ≠ '\'' ∧ c ≠ '/' := by
+  intro c hc
+  unfold commentRepl at hc
+  split at hc
+  · cases p <;> cases n <;> simp at hc
+    obtain ⟨_, rfl⟩ := hc; decide
+  · have : c = '\n' := by simpa [newlinesOf] using (List.mem_filter.mp hc).2
+    subst this; decide
+
+/-- A block comment parses like what the comment scanner puts in its place (`commentRepl`: its newlines; one blank if it has none
+    and stands directly between two characters that are no white space; nothing otherwise).  Side conditions (new with the rule
+    that looks at the neighbours; the statement used to be unconditional): the text in front does not end with `/` and the text
+    behind does not start with another block comment — the replacements of ADJACENT comments depend on each other. -/
+theorem c13_comment_block_is_newlines (a o body b : List Char) (h : Closed none a (some '/') o) (hb : hasClose body = false)
+    (hl : lastOr none a ≠ some '/') (hb2 : ∀ r, b ≠ '/' :: '*' :: r) :
+    parseDecls (a ++ ('/' :: '*' :: body ++ '*' :: '/' :: b)) = parseDecls (a ++ (commentRepl (lastOr none a) body b.head? ++ b)) := by
+  have hR := closed_plain (lastOr none a) b.head? _ (commentRepl_plain (lastOr none a) b.head? body)
+  rw [parseDecls_eq, parseDecls_eq]
+  show parseToks (scan (stripFrom none _)) = parseToks (scan (stripFrom none _))
+  rw [Parser.C13.c13_comment_block none a o body b h hb,
+    Parser.C13.c13_strip_append none a o _ (closed_next none a _ _ o h hl),
+    Parser.C13.c13_strip_append _ _ _ b hR,
+    Parser.C13.c13_strip_prev (some '/') _ b hb2, List.append_assoc]
+
+/-- a line comment parses like nothing (its newline stays); side condition as above: the text in front does not end with `/` -/
+theorem c13_comment_line_is_nothing (a o body b : List Char) (h : Closed none a (some '/') o) (hb : ∀ c ∈ body, isEol c = false)
+    (hl : lastOr none a ≠ some '/') :
     parseDecls (a ++ ('/' :: '/' :: body ++ '\n' :: b)) = parseDecls (a ++ '\n' :: b) := by
-  rw [parseDecls_eq, parseDecls_eq, Parser.C13.c13_comment_line a o body b h hb, Parser.C13.c13_strip_append a o _ h]
+  rw [parseDecls_eq, parseDecls_eq]
+  show parseToks (scan (stripFrom none _)) = parseToks (scan (stripFrom none _))
+  rw [Parser.C13.c13_comment_line none a o body b h hb,
+    Parser.C13.c13_strip_append none a o _ (closed_next none a _ _ o h hl),
+    Parser.C13.c13_strip_prev (some '/') (lastOr none a) ('\n' :: b) (by intro r e; cases e)]
 
-theorem c13_comment_is_blank (a o body b w w' : List Char) (l l' : List (Lexeme × List Char)) (h : Closed a o)
-    (hb : hasClose body = false)
-    (ht : Parser.strip (a ++ b) = w ++ render l) (ht' : Parser.strip (a ++ (newlinesOf body ++ b)) = w' ++ render l')
-    (hw : blank w = true) (hw' : blank w' = true) (hl : adm false l = true) (hl' : adm false l' = true) (hs : sameLexemes l l') :
+/-- THE "ignores comments" CLAUSE, first half — by the scanner rule itself: a block comment without line break that stands directly
+    between two characters that are neither white space nor `/` is the same as ONE BLANK, for the comment-stripped text and hence
+    for the declarations: `uint8/**/a` is `uint8 a`. -/
+theorem c13_comment_separates (a o body b' : List Char) (x y : Char) (h : Closed none a (some '/') o) (hb : hasClose body = false)
+    (hnl : newlinesOf body = []) (hx : lastOr none a = some x) (hxs : isSpace x = false) (hx2 : x ≠ '/')
+    (hys : isSpace y = false) (hy2 : y ≠ '/') :
+    Parser.strip (a ++ ('/' :: '*' :: body ++ '*' :: '/' :: y :: b')) = Parser.strip (a ++ ' ' :: y :: b') ∧
+    parseDecls (a ++ ('/' :: '*' :: body ++ '*' :: '/' :: y :: b')) = parseDecls (a ++ ' ' :: y :: b') := by
+  have hl : lastOr none a ≠ some '/' := by rw [hx]; intro e; cases e; exact hx2 rfl
+  have hb2 : ∀ r, y :: b' ≠ '/' :: '*' :: r := by intro r e; cases e; exact hy2 rfl
+  have hrepl : commentRepl (lastOr none a) body (y :: b').head? = [' '] :=
+    (Parser.C13.c13_comment_repl _ _ body).2.1 hnl x y hx rfl hxs hys
+  have key : Parser.strip (a ++ ('/' :: '*' :: body ++ '*' :: '/' :: y :: b')) = Parser.strip (a ++ ' ' :: y :: b') := by
+    have hR := closed_plain (lastOr none a) (y :: b').head? [' '] (by intro c hc; simp at hc; subst hc; decide)
+    show stripFrom none _ = stripFrom none _
+    rw [Parser.C13.c13_comment_block none a o body (y :: b') h hb, hrepl,
+      show a ++ ' ' :: y :: b' = a ++ ([' '] ++ (y :: b')) by simp,
+      Parser.C13.c13_strip_append none a o _ (closed_next none a _ _ o h hl),
+      Parser.C13.c13_strip_append _ _ _ (y :: b') hR,
+      Parser.C13.c13_strip_prev (some '/') _ (y :: b') hb2, List.append_assoc]
+  exact ⟨key, by rw [parseDecls_eq, parseDecls_eq, key]⟩
+
+/-- ... second half — with the blank-insensitivity of scanner and handlers: a block comment may stand ANYWHERE a blank may stand.
+    Whatever the comment is replaced by (newlines, a blank, nothing), if the text with the comment and the text without it have the
+    same lexemes up to `lexSim` with admissible separators, they yield the same declarations. -/
+theorem c13_comment_is_blank (a o body b w w' : List Char) (l l' : List (Lexeme × List Char)) (h : Closed none a (some '/') o)
+    (hb : hasClose body = false) (hl : lastOr none a ≠ some '/') (hb2 : ∀ r, b ≠ '/' :: '*' :: r)
+    (ht : Parser.strip (a ++ b) = w ++ render l)
+    (ht' : Parser.strip (a ++ (commentRepl (lastOr none a) body b.head? ++ b)) = w' ++ render l')
+    (hw : blank w = true) (hw' : blank w' = true) (hadm : adm false l = true) (hadm' : adm false l' = true) (hs : simLexemes l' l = true) :
     parseDecls (a ++ ('/' :: '*' :: body ++ '*' :: '/' :: b)) = parseDecls (a ++ b) := by
-  rw [c13_comment_block_is_newlines a o body b h hb]
-  exact c13_parse_layout_independent _ _ w' w l' l ht' ht hw' hw hl' hl (simLexemes_of_same l' l hs.symm)
-
-/-- a text without quotes and slashes: the comment scanner copies it -/
-theorem closed_plain : ∀ (l : List Char), (∀ c ∈ l, c ≠ '"' ∧ c ≠ '\'' ∧ c ≠ '/') → Closed l l
-  | [], _ => .nil
-  | c :: l, hc => .char c l l (hc c (by simp)).1 (hc c (by simp)).2.1 (hc c (by simp)).2.2
-      (closed_plain l (fun d hd => hc d (by simp [hd])))
+  rw [c13_comment_block_is_newlines a o body b h hb hl hb2]
+  exact c13_parse_layout_independent _ _ w' w l' l ht' ht hw' hw hadm' hadm hs
 
 -- ------------------------------------------------------------------------------------------------ order of definitions
-theorem strip_closed (a o : List Char) (h : Closed a o) : Parser.strip a = o := by
-  have := Parser.C13.c13_strip_append a o [] h
-  simpa [Parser.strip, Parser.stripAux] using this
-
-/-- The declaration list is compositional at a boundary between top-level definitions.  `t1` (comment-stripped: blanks `w`, then
-    the lexemes `l1`) ends a top-level declaration (`endsTop`: behind `;`, a `#[...]` flag, or the line break of a `#define`),
+/-- The declaration list is compositional at a boundary between top-level definitions.  `t1` (comment-stripped — in front of `t2`
+    and on its own —: blanks `w`, then the lexemes `l1`; `t2` comment-stripped — behind `t1` and on its own —: the lexemes `l2`) ends a top-level declaration (`endsTop`: behind `;`, a `#[...]` flag, or the line break of a `#define`),
     parses to `ds1` without error, and is at a `boundary` with respect to the first token of `t2` (see there: the continuation
     must not start with `;`, a declarator or a name list, and `t1` must not end inside an unfinished definition).  Then the
     declarations of `t1 ++ t2` are those of `t1` followed by those of `t2`, and the error, if any, is that of `t2`. -/
 theorem c13_decls_append (t1 t2 w : List Char) (l1 l2 : List (Lexeme × List Char)) (ds1 : List Decl)
-    (hc : Closed t1 (w ++ render l1)) (hw : blank w = true) (h2 : Parser.strip t2 = render l2)
+    (hc : Closed none t1 t2.head? (w ++ render l1)) (hc0 : Closed none t1 none (w ++ render l1)) (hw : blank w = true)
+    (h2 : stripFrom (lastOr none t1) t2 = render l2) (h2' : stripFrom none t2 = render l2)
     (ha1 : adm false l1 = true) (ha2 : adm false l2 = true) (he : endsTop l1 = true)
     (hp : parseDecls t1 = (ds1, none)) (hb : boundary l1 ds1 (firstObs l2)) :
     parseDecls (t1 ++ t2) = (ds1 ++ (parseDecls t2).1, (parseDecls t2).2) := by
   have e12 : Parser.strip (t1 ++ t2) = w ++ render (l1 ++ l2) := by
-    rw [Parser.C13.c13_strip_append t1 _ t2 hc, h2, render_append, List.append_assoc]
+    show stripFrom none _ = _
+    rw [Parser.C13.c13_strip_append none t1 _ t2 hc, h2, render_append, List.append_assoc]
   have hp' : declsH (((toks l1).map Tok.obs).length + 1) ((toks l1).map Tok.obs) = (ds1, none) := by
-    rw [parseDecls_eq, strip_closed t1 _ hc, scan_lead w l1 hw ha1] at hp
+    rw [parseDecls_eq, show Parser.strip t1 = stripFrom none t1 from rfl, strip_closed none t1 _ hc0, scan_lead w l1 hw ha1] at hp
     simpa [parseToks] using hp
-  have h2' : parseDecls t2 = declsH (((toks l2).map Tok.obs).length + 1) ((toks l2).map Tok.obs) := by
-    rw [parseDecls_eq, h2]
+  have h2'' : parseDecls t2 = declsH (((toks l2).map Tok.obs).length + 1) ((toks l2).map Tok.obs) := by
+    rw [parseDecls_eq, show Parser.strip t2 = stripFrom none t2 from rfl, h2']
     have := scan_lead [] l2 rfl ha2
     simp only [List.nil_append] at this
     rw [this]; simp [parseToks]
-  rw [parseDecls_eq, e12, scan_lead w (l1 ++ l2) hw (adm_append l1 l2 false ha1 he ha2), h2']
+  rw [parseDecls_eq, e12, scan_lead w (l1 ++ l2) hw (adm_append l1 l2 false ha1 he ha2), h2'']
   have := decls_append_obs ((toks l1).map Tok.obs) ((toks l2).map Tok.obs) ds1 hp' hb
   simpa [parseToks, toks_append] using this
 
@@ -201,8 +284,8 @@ theorem endsTop_ne_nil (l : List (Lexeme × List Char)) (h : endsTop l = true) :
 theorem c13_decls_concat (D : List TopDef) (hok : ∀ d ∈ D, d.ok) (hb : ∀ d ∈ D, ∀ d' ∈ D, d.before d') :
     ∀ (σ : List TopDef), (∀ d ∈ σ, d ∈ D) →
       parseDecls (σ.flatMap (·.text)) = (σ.flatMap (·.decls), none) ∧
-      Parser.strip (σ.flatMap (·.text)) = render (σ.flatMap (·.lex)) ∧ adm false (σ.flatMap (·.lex)) = true
-  | [], _ => ⟨by decide +kernel, by decide +kernel, rfl⟩
+      (∀ p, stripFrom p (σ.flatMap (·.text)) = render (σ.flatMap (·.lex))) ∧ adm false (σ.flatMap (·.lex)) = true
+  | [], _ => ⟨by decide +kernel, fun p => by cases p <;> rfl, rfl⟩
   | d :: σ, hσ => by
     obtain ⟨ihp, ihs, iha⟩ := c13_decls_concat D hok hb σ (fun x hx => hσ x (by simp [hx]))
     obtain ⟨hc, had, het, hpd⟩ := hok d (hσ d (by simp))
@@ -214,11 +297,13 @@ theorem c13_decls_concat (D : List TopDef) (hok : ∀ d ∈ D, d.ok) (hb : ∀ d
         simp only [List.flatMap_cons]
         rw [firstObs_append _ _ hne]
         exact hb d (hσ d (by simp)) d' (hσ d' (by simp))
-    have := c13_decls_append d.text (σ.flatMap (·.text)) [] d.lex (σ.flatMap (·.lex)) d.decls (by simpa using hc) rfl ihs had iha het hpd hbd
+    have := c13_decls_append d.text (σ.flatMap (·.text)) [] d.lex (σ.flatMap (·.lex)) d.decls (by simpa using hc none _)
+      (by simpa using hc none none) rfl (ihs _) (ihs none) had iha het hpd hbd
     refine ⟨?_, ?_, ?_⟩
     · simp only [List.flatMap_cons, this, ihp]
-    · simp only [List.flatMap_cons]
-      rw [Parser.C13.c13_strip_append d.text _ _ hc, ihs, render_append]
+    · intro p
+      simp only [List.flatMap_cons]
+      rw [Parser.C13.c13_strip_append p d.text _ _ (hc p _), ihs, render_append]
     · simp only [List.flatMap_cons]
       exact adm_append d.lex _ false had het iha
 
@@ -293,22 +378,17 @@ def cutL (sep : String) : List (Lexeme × List Char) := [(.define (S " ") (S "N"
   (.lbrace, S " "), (id' "uint8", S sep), (.name [] (S "a") (some (S " ", S " ", S "3")) none, []), (.semi, S " "), (.rbrace, []), (.semi, [])]
 example : parseDecls (cutA ++ ('/' :: '*' :: S " bits:\n low " ++ '*' :: '/' :: cutB)) = parseDecls (cutA ++ cutB) :=
   c13_comment_is_blank cutA cutA (S " bits:\n low ") cutB [] [] (cutL " ") (cutL " \n")
-    (by
-      have : Closed cutA (Parser.strip cutA) := by
-        -- a text without quotes and slashes is closed
-        have h : ∀ (l : List Char), (∀ c ∈ l, c ≠ '"' ∧ c ≠ '\'' ∧ c ≠ '/') → Closed l l := by
-          intro l
-          induction l with
-          | nil => intro _; exact .nil
-          | cons c l ih =>
-            intro hc
-            exact .char c l l (hc c (by simp)).1 (hc c (by simp)).2.1 (hc c (by simp)).2.2 (ih (fun d hd => hc d (by simp [hd])))
-        have e : Parser.strip cutA = cutA := by decide +kernel
-        rw [e]
-        exact h cutA (by decide +kernel)
-      have e : Parser.strip cutA = cutA := by decide +kernel
-      rwa [e] at this)
-    (by decide +kernel) (by decide +kernel) (by decide +kernel) rfl rfl (by decide +kernel) (by decide +kernel) (by decide +kernel)
+    (closed_plain none _ cutA (by decide +kernel)) (by decide +kernel) (by decide +kernel)
+    (by have h1 : cutB.head? = some 'a' := by decide +kernel
+        intro r e; rw [e] at h1; simp at h1)
+    (by decide +kernel) (by decide +kernel) rfl rfl (by decide +kernel) (by decide +kernel) (by decide +kernel)
+-- the comment as the ONLY separator: `uint8/**/a` is `uint8 a` (by the scanner rule, `c13_comment_separates`)
+example : parseDecls (S "struct s { uint8/**/a; };") = parseDecls (S "struct s { uint8 a; };") := by decide +kernel
+example : parseDecls (S "struct s { uint8/**/a; };") = parseDecls (S "struct s { uint8 a; };") :=
+  (c13_comment_separates (S "struct s { uint8") (S "struct s { uint8") [] (S "; };") '8' 'a'
+    (closed_plain none _ _ (by decide +kernel)) rfl rfl (by decide +kernel) (by decide +kernel) (by decide) (by decide +kernel) (by decide)).2
+-- next to a blank the comment is replaced by nothing, at the start of the text too; a comment with a line break by its line breaks
+example : Parser.strip (S "/*h*/uint8 /*c*/a;/* x\n y */b") = S "uint8 a;\nb" ∧ Parser.strip (S "a/*1*//*2*/b") = S "a  b" := by decide +kernel
 
 -- Every condition of `sepOK` is needed by the code as it is; the token lists below differ although only a blank was inserted
 -- at a place where the scanner had just finished a token:
@@ -365,7 +445,7 @@ theorem family_ok : ∀ d ∈ family, d.ok := by
       endsTop d.lex = true ∧ parseDecls d.text = (d.decls, none) := by decide +kernel
   intro d hd
   obtain ⟨h1, h2, h3, h4, h5⟩ := plain d hd
-  exact ⟨h1 ▸ closed_plain d.text h2, h3, h4, h5⟩
+  exact ⟨fun p n => h1 ▸ closed_plain p n d.text h2, h3, h4, h5⟩
 
 theorem family_before : ∀ d ∈ family, ∀ d' ∈ family, d.before d' := by decide +kernel
 
@@ -421,6 +501,7 @@ end Cstruct.DefParser.C13
 #print axioms Cstruct.DefParser.C13.c13_comment_block_is_newlines
 #print axioms Cstruct.DefParser.C13.c13_comment_line_is_nothing
 #print axioms Cstruct.DefParser.C13.c13_comment_is_blank
+#print axioms Cstruct.DefParser.C13.c13_comment_separates
 #print axioms Cstruct.DefParser.C13.c13_declarator_of_lexeme
 #print axioms Cstruct.DefParser.C13.c13_star_spacing
 #print axioms Cstruct.DefParser.C13.c13_enum_type_words
